@@ -24,23 +24,23 @@ THEMES = "svgdx::themes::"
 
 
 def run(prog, chk):
-    gating(prog, chk)
-    guards_and_closure(prog, chk)
-    closure_preserved(prog, chk)
-    collection(prog, chk)
-    colours(prog, chk)
-    plain_guards(prog, chk)
-    evaluated_classes_are_split(prog, chk)
-    builders_unconditional(prog, chk)
-    root_outside_collection(prog, chk)
-    hooks_add_nothing_by_default(prog, chk)
-    class_loops_run_to_the_end(prog, chk)
-    unfiltered_output(prog, chk)
-    unconditional_emissions(prog, chk)
+    chk.rule(gating, prog, chk)
+    chk.rule(guards_and_closure, prog, chk)
+    chk.rule(closure_preserved, prog, chk)
+    chk.rule(collection, prog, chk)
+    chk.rule(colours, prog, chk)
+    chk.rule(plain_guards, prog, chk)
+    chk.rule(evaluated_classes_are_split, prog, chk)
+    chk.rule(builders_unconditional, prog, chk)
+    chk.rule(root_outside_collection, prog, chk)
+    chk.rule(hooks_add_nothing_by_default, prog, chk)
+    chk.rule(class_loops_run_to_the_end, prog, chk)
+    chk.rule(unfiltered_output, prog, chk)
+    chk.rule(unconditional_emissions, prog, chk)
     from props import C02
-    C02.other_is_whole_input_event(prog, chk)  # every element tag of the output is a Start / Empty event: the class scan of the style pass sees all of them
+    chk.rule(C02.other_is_whole_input_event, prog, chk)  # every element tag of the output is a Start / Empty event: the class scan of the style pass sees all of them
     from props import strops
-    strops.check_for(prog, chk, "C20")  # A14.str-ops: how this property's strings are cut up is a reviewed, frozen inventory
+    chk.rule(strops.check_for, prog, chk, "C20")  # A14.str-ops: how this property's strings are cut up is a reviewed, frozen inventory
 
 
 def _true_only_after(body, place, after_blocks, depth=5):
@@ -112,6 +112,7 @@ def unconditional_emissions(prog, chk):
     cnt = collections.Counter()
     where = {}
     n = 0
+    seen_lines = set()
     for b in prog.bodies.values():
         if not b.path.startswith(("svgdx::themes::", "<svgdx::themes::")):
             continue
@@ -120,14 +121,26 @@ def unconditional_emissions(prog, chk):
             guarded = any(k == "call" and p[0] == "has_class" and tr for (k, p, tr) in D.dom_conditions(b, bb))
             if not guarded:
                 f = strip_closures(b.path)
+                if (f, t.get("line")) in seen_lines:
+                    continue  # one helper line spliced in at several call sites is one emission
+                seen_lines.add((f, t.get("line")))
                 cnt[f] += 1
                 where.setdefault(f, b.where(bb, t.get("line")))
     chk.floor("A13.unconditional-style", n, 30, "add_style / add_defs call in src/themes.rs")
+    orphans = {o: v[0] for o, v in UNCONDITIONAL_OK.items() if not prog.by_path.get(o)}
     for f in sorted(set(cnt) | set(UNCONDITIONAL_OK)):
         allowed, why = UNCONDITIONAL_OK.get(f, (0, ""))
         owners = prog.owners_of(f) if f not in UNCONDITIONAL_OK else set()
         if owners:
             allowed = sum(UNCONDITIONAL_OK.get(o, (0, ""))[0] for o in owners)
+        if cnt[f] > allowed:
+            # reviewed functions that no longer exist: their body - and the reviewed emissions in it - moved elsewhere
+            for o in sorted(orphans):
+                take = min(orphans[o], cnt[f] - allowed)
+                if take > 0:
+                    orphans[o] -= take
+                    allowed += take
+                    why = (why + "; " if why else "") + f"moved here from {o.replace('svgdx::', '')}, which no longer exists: {UNCONDITIONAL_OK[o][1]}"
         chk.ob(cnt[f] <= allowed, "A13.unconditional-style", f.replace("svgdx::", ""), where.get(f, "src/themes.rs"), f"{cnt[f]} emission(s) outside a class test (reviewed: {allowed}; {why})", f"{f.replace('svgdx::', '')} emits {cnt[f]} style / defs entries that are not under a has_class() test (reviewed: {allowed}): a rule taken out from under its guard is written into every document whether or not its class is used", by="table")
 
 
@@ -337,36 +350,78 @@ def closure_preserved(prog, chk):
             f"ThemeBuilder.{field} is only appended to by {adder}(): emitted text is never rewritten, so the per-generator url/id closure stays valid in the output",
             f"ThemeBuilder.{field} is also mutated by {extra}: rewriting emitted rules/definitions after the fact (e.g. prefixing ids) can leave url(#..) references dangling",
         )
-    pd = prog.maybe_body(THEMES + "pattern_defs")
-    if pd is None:
-        chk.anchor_missing("A16.id-from-class", "themes::pattern_defs not found")
+    pattern_ids(prog, chk)
+
+
+def _part_after(v, suffix):
+    """in a formatted value, the part that follows the literal text ending in `suffix`"""
+    if not isinstance(v, tuple) or v[0] != "fmt":
+        return None
+    parts = v[1]
+    for i, p_ in enumerate(parts[:-1]):
+        if isinstance(p_, str) and p_.endswith(suffix):
+            return parts[i + 1]
+    return None
+
+
+def pattern_ids(prog, chk):
+    """(b), decided on the values the affine evaluator computes for the two emissions of the pattern generator: the
+    rule `.CLASS {fill: url(#ID)}` and the definition `<pattern id="ID2" ..>` must carry the same id, and the id is
+    the selecting class with constant text stripped from its front (distinct classes give distinct ids)"""
+    from sa import algebra as A
+
+    # the generator: the function that emits the `<pattern id="` text
+    owners = []
+    gen_path = {}
+    for b, h in prog.hir_items():
+        if b is None or not isinstance(h, dict) or not b.path.startswith(THEMES) or (b in owners and gen_path.get(b.id) != b.path):
+            continue
+        for node in hirq.walk(h.get("body")):
+            if node.get("k") != "Lit" or not isinstance(node.get("lit"), dict):
+                continue
+            texts = [node["lit"]["str"]] if isinstance(node["lit"].get("str"), str) else []
+            if "bytes" in node["lit"]:
+                try:
+                    texts += [v for kind, v in hirq.decode_template(node["lit"]["bytes"]) if kind == "lit"]
+                except Exception:  # noqa: BLE001 - a byte string that is not a format template
+                    pass
+            if any('<pattern id="' in t for t in texts):
+                if b not in owners:
+                    owners.append(b)
+                gen_path[b.id] = h.get("path") or b.path  # a helper spliced into its caller is still evaluated on its own
+                break
+    owners = [b for b in owners if "{closure" not in b.path]
+    if len(owners) != 1:
+        chk.anchor_missing("A16.id-from-class", f"the pattern generator (the function emitting `<pattern id=`) is not unique: {[b.path for b in owners]}")
         return
-    h = prog.hir[pd.id]
-    sel_var = id_var = None
-    for n in hirq.exprs(h["body"], "MethodCall"):
-        if n["name"] == "add_style" and n["args"]:
-            tpl = hirq.render_string_expr(n["args"][0]) or ""
-            m = re.search(r"\.\{(\w+)\}[^}]*url\(#\{(\w+)\}\)", tpl)
-            if m:
-                sel_var, id_var = m.group(1), m.group(2)
-    ok = False
-    detail = f"selector variable {sel_var}, id variable {id_var}"
-    if sel_var and id_var:
-        # id_var must be a local defined from sel_var by stripping a constant prefix
-        for st in hirq.walk(h["body"]):
-            if st.get("k") == "Let" and st.get("pat", {}).get("name") == id_var and isinstance(st.get("init"), dict):
-                init = st["init"]
-                if init.get("k") == "MethodCall" and init["name"] in ("trim_start_matches", "strip_prefix", "trim_start", "to_string", "to_owned") and hirq.field_chain(init["recv"]) == [sel_var]:
-                    ok = True
-        if sel_var == id_var:
-            ok = True
+    pd = owners[0]
+    chk.touch(pd)
+    ev = A.Evaluator(prog, watch=("add_style", "add_defs"), transparent=("fstr",))
+    try:
+        gp = gen_path.get(pd.id, pd.path)
+        ev.summary(gp if gp in ev.by_path else pd.path)
+    except Exception as e:  # an idiom the evaluator does not know
+        chk.undecided("A16.id-from-class", "pattern_defs", pd.where(), f"the affine evaluator could not follow {pd.path}: {e}")
+        return
+    rules = [c["args"][-1] for c in ev.calls if c["name"] == "add_style" and c["args"]]
+    defs = [c["args"][-1] for c in ev.calls if c["name"] == "add_defs" and c["args"]]
+    rid = [(_part_after(v, "."), _part_after(v, "url(#")) for v in rules if _part_after(v, "url(#") is not None]
+    did = [_part_after(v, '<pattern id="') for v in defs if _part_after(v, '<pattern id="') is not None]
+    if len(rid) != 1 or len(did) != 1 or rid[0][0] is None or ev.incomplete:
+        chk.undecided("A16.id-from-class", "pattern_defs", pd.where(), f"{pd.path}: the rule / definition texts are not built in a way the evaluator reads ({len(rid)} rule(s) with url(#..), {len(did)} definition(s) with an id" + (f"; {ev.incomplete[0]}" if ev.incomplete else "") + ")")
+        return
+    (sel, ref_id), def_id = rid[0], did[0]
+    same = A.equal(ref_id, def_id)
+    # the id as a term over the selecting class: the class itself, or a prefix-stripping function of it and constants
+    cs, ci = A.canon(sel), A.canon(ref_id)
+    derived = ci == cs or re.fullmatch(r"(trim_start_matches|strip_prefix|trim_start)\(" + re.escape(cs) + r"(; '[^']*')?\)", ci) is not None
     chk.ob(
-        ok,
+        same and derived,
         "A16.id-from-class",
         "pattern_defs",
         pd.where(),
-        "a pattern's definition id is the selecting class name minus its constant prefix (distinct classes get distinct ids, so each url(#id) is defined exactly once)",
-        f"the pattern definition id is not derived from the class its rule selects ({detail}): two different classes can map to the same id, giving duplicate definitions",
+        f"the rule fills with url(#{ci}) and the definition's id is the same term; it is the selecting class {cs} minus a constant prefix (distinct classes get distinct ids, so each url(#id) is defined exactly once)",
+        (f"the rule references url(#{ci}) but the definition carries id {A.canon(def_id)}" if not same else f"the pattern id {ci} is not the selecting class {cs} with a constant prefix removed: two different classes can map to the same id, giving duplicate definitions"),
     )
 
 
